@@ -1,12 +1,14 @@
 """C12 -- exceptions and tracebacks cross the process boundary intact."""
 from pyvc.api import *
 from pyvc.core import VExc, box
+import worker as W
 
 PROP = 'C12'
 REPLAYERS = {q: 'replayers/einfo_roundtrip.py' for q in (
     'einfo.Traceback.__init__', 'einfo._Truncated.__init__', 'einfo._Code.__init__', 'einfo._Frame.__init__',
     'einfo._Code.__reduce__', 'einfo._Frame.__reduce__', 'einfo._Truncated.__reduce__', 'einfo.Traceback.__reduce__',
     'einfo.ExceptionInfo.__init__', 'einfo.ExceptionWithTraceback.__reduce__', 'einfo.rebuild_exc')}
+REPLAYERS['pool.Worker.workloop'] = 'replayers/workloop.py'
 
 ASSUMPTIONS = [
     'pickle rebuilds an object from a reduce value (callable, args, state) by calling callable(*args) and setting __dict__ to '
@@ -221,7 +223,10 @@ def build(w):
         ensures={'original_exception_with_the_remote_traceback_as_cause': 'result == exc and '
                                                                           'exc.__cause__ == remote_traceback(tb)'},
     )
-    return [code_init, frame_init, trunc_init, tb_init] + reduces + [einfo_init, ewt_reduce, rebuild]
+    # the worker side of the last clause: a result that cannot be serialised is answered with the encoding-error record
+    # on that job; the loop is only left by an exception if that record could not be sent either
+    W.declare_worker(w)
+    return [code_init, frame_init, trunc_init, tb_init] + reduces + [einfo_init, ewt_reduce, rebuild, W.workloop_contract(PROP)]
 
 
 MANIFEST_ENTRY = {
@@ -234,8 +239,12 @@ MANIFEST_ENTRY = {
             '(C.__new__, (C,), self.__dict__) with the whole __dict__; ExceptionInfo.__init__ records the original type, the '
             'stand-in chain of the raising frames (bounded by the default limit) and the internal flag; '
             'ExceptionWithTraceback.__reduce__ / rebuild_exc rebuild the original exception object with the remote traceback '
-            'text as its cause.',
+            'text as its cause.  Worker.workloop (shared contract with C03/C09, loop invariant over any number of jobs): when '
+            'the put of a result fails with any Exception, the next thing sent is (False, encoding-error record) for that same '
+            'job, and an exception leaves the loop only if that second put failed as well -- an unserialisable result alone '
+            'neither kills the worker nor loses the job.',
     'note': 'pickle and traceback themselves are assumed contracts (round-trip stability follows from "whole __dict__" by '
             'induction); the replayer formats and re-pickles rebuilt records at run time as a bounded cross-check.  The '
-            'unserialisable-result path of the worker is covered by C03.',
+            'queue put of the worker is an assumed contract: it delivers, raises some Exception, or is interrupted by the '
+            'termination signal.',
 }
